@@ -16,9 +16,9 @@ def run(rep, tier, seed, b):
     tabs = gens.tables(rng, 8 if tier == 'quick' else 30, presets)
     n = 30000 if tier == 'quick' else 500000
     items = [c for c in dec_side.gen_cases(rng, n, tabs, bad=0.03, malformed=0.0) if dec_side.wf_string(c[1])]
-    L = 4 if tier == 'quick' else 6
+    L = 4 if tier == 'quick' else 5      # 15 symbols: 54 240 strings up to length 4, 813 615 up to length 5 (length 6 would be 12 million per table)
     tight = {'C': 3, 'N': 2, 'O': 1, 'F': 1, 'N+1': 3, '?': 2}
-    ex = dec_side.exhaustive_cases(presets[0], L) + dec_side.exhaustive_cases(tight, L - 1 if tier == 'quick' else L)
+    ex = dec_side.exhaustive_cases(presets[0], L) + dec_side.exhaustive_cases(tight, L - 1)
     items += ex
     res = core.pmap('dec_side', 'work', items, extra={'c02': True}, chunk=600)
     for it, r in zip(items, res):
